@@ -35,6 +35,13 @@ CLAIMED = {
             'equals decode into a fresh instance. For all field values and all list lengths. Four known findings proved on the complement of their regions.',
             'Same scope restriction as C01 for FC 20/21 and the 43/14 response. A1-A10; z3/cvc5.',
             'contract-based deductive verification (pyvc VC generation from /repo AST + z3/cvc5)', 'DESIGN.md section 4 C02'),
+    'C14': ('proof', 'Linear-arithmetic identities proved for all quantities: get_response_pdu_size() of FC 1-6, 15, 16, 23 and every FC 8 sub-function equals '
+            '1 + len(encode()) of the normal response (for FC 8: the response its own execute() builds, run on the real device control block); '
+            'base_adu_size + PDU size (doubled for ASCII) equals len(buildPacket()) for RTU, ASCII, binary, TLS and TCP for an arbitrary message; '
+            '_calculate_exception_length() equals the real exception frame length. Two known findings (GetClearModbusPlus prediction, binary delimiter doubling).',
+            'An arbitrary message is abstracted by the assumed contract "encode() returns some bytes" (C02 purity). The length arithmetic inside '
+            '_recv (how many bytes are requested from the transport) is covered under C13/C08. A1-A10; z3/cvc5.',
+            'contract-based deductive verification (pyvc VC generation from /repo AST + z3/cvc5)', 'DESIGN.md section 4 C14'),
 }
 NOT_YET = 'check not built yet at this commit (planned: contract-based, see DESIGN.md section 4)'
 ALL = ['C%02d' % i for i in range(1, 21)]
